@@ -79,9 +79,10 @@ impl ElixirRange {
         if self.is_empty() {
             return 0;
         }
-        let diff = (self.last - self.first).abs();
-        let step = self.step.abs();
-        ((diff / step) + 1) as usize
+        // unsigned distance and step: `last - first`, `.abs()` and `+ 1` overflow for wide ranges
+        let diff = self.last.abs_diff(self.first);
+        let step = self.step.unsigned_abs();
+        usize::try_from(diff / step).map_or(usize::MAX, |n| n.saturating_add(1))
     }
 
     /// Returns true if the range contains the given value.
@@ -90,11 +91,12 @@ impl ElixirRange {
         if self.is_empty() {
             return false;
         }
-        if self.step > 0 {
-            value >= self.first && value <= self.last && (value - self.first) % self.step == 0
+        let in_bounds = if self.step > 0 {
+            value >= self.first && value <= self.last
         } else {
-            value <= self.first && value >= self.last && (self.first - value) % (-self.step) == 0
-        }
+            value <= self.first && value >= self.last
+        };
+        in_bounds && value.abs_diff(self.first) % self.step.unsigned_abs() == 0
     }
 
     /// Parses an OwnedTerm as a Range struct.
@@ -178,7 +180,11 @@ impl Iterator for RangeIterator {
             if value == self.range.last {
                 self.done = true;
             } else {
-                self.current = self.current.saturating_add(self.range.step);
+                // a step past i64's limits also steps past `last`
+                match self.current.checked_add(self.range.step) {
+                    Some(next) => self.current = next,
+                    None => self.done = true,
+                }
             }
         } else {
             if value < self.range.last {
@@ -188,7 +194,11 @@ impl Iterator for RangeIterator {
             if value == self.range.last {
                 self.done = true;
             } else {
-                self.current = self.current.saturating_add(self.range.step);
+                // a step past i64's limits also steps past `last`
+                match self.current.checked_add(self.range.step) {
+                    Some(next) => self.current = next,
+                    None => self.done = true,
+                }
             }
         }
 
@@ -199,16 +209,16 @@ impl Iterator for RangeIterator {
         if self.done || self.range.is_empty() {
             return (0, Some(0));
         }
-        let remaining = if self.range.step > 0 {
-            if self.current > self.range.last {
-                0
-            } else {
-                (((self.range.last - self.current) / self.range.step) + 1) as usize
-            }
-        } else if self.current < self.range.last {
+        let past_end = if self.range.step > 0 {
+            self.current > self.range.last
+        } else {
+            self.current < self.range.last
+        };
+        let remaining = if past_end {
             0
         } else {
-            (((self.current - self.range.last) / (-self.range.step)) + 1) as usize
+            let steps = self.range.last.abs_diff(self.current) / self.range.step.unsigned_abs();
+            usize::try_from(steps).map_or(usize::MAX, |n| n.saturating_add(1))
         };
         (remaining, Some(remaining))
     }
